@@ -98,7 +98,10 @@ def rule_exp(ctx, F):
                        "Value::get_response returns Some(..) on a path that does not pass the age test: that entry (a remembered "
                        "failure, for instance) never expires", b.where(bi))
     nones = [r for r in return_assignments(b) if r[2] == "None"]
-    ctx.ob(R, b, "expired entries yield None", len(nones) == 1, "expected one `return None` for expired entries")
+    expired = [r for r in nones
+               if any(el(deep_strip(y)) and vf(deep_strip(x)) and rel in ("<=", "<") for (x, rel, y) in relations(b, r[0], F))]
+    ctx.ob(R, b, "expired entries yield None", len(expired) >= 1,
+           "no `return None` on the side where valid_for <= created_at.elapsed() (found %d None returns)" % len(nones))
 
 
 def rule_ttl(ctx, F):
